@@ -400,7 +400,7 @@ const gchar *
 g_base_info_get_namespace (GIBaseInfo *info)
 {
   GIRealInfo *rinfo = (GIRealInfo*) info;
-  Header *header = (Header *)rinfo->typelib->data;
+  Header *header;
 
   g_assert (rinfo->ref_count > 0);
 
@@ -410,6 +410,9 @@ g_base_info_get_namespace (GIBaseInfo *info)
 
       return unresolved->namespace;
     }
+
+  /* Only now: an unresolved info has no typelib, that slot holds its name */
+  header = (Header *)rinfo->typelib->data;
 
   return g_typelib_get_string (rinfo->typelib, header->namespace);
 }
